@@ -175,4 +175,6 @@ def run(ctx):
                 ctx.ok({'function': fname, 'flag word': v, 'masks': sorted(set(masks))})
     if nflag < 1:
         raise FactError('skoolkit/skoolmacro.py: no bit-tested flag parameter found')
+    from sa.rules import memo
+    memo.run_for(ctx, repo, 'C17')
     return report.finish(ctx, EXPLANATION)
